@@ -486,3 +486,52 @@ def c13_history(e):
         return False
     return (first[0] == ref_width_concrete(x) and ref_width_concrete(first[1]) == n and "".join(first[2]) == x
             and all(ref_width_concrete(p) <= w for p in first[2]))
+
+
+# --- lookups of neighbouring code points in either order, real caches (P) -----------------------------------------------------
+def _boundary_points():
+    from rich._cell_widths import CELL_WIDTHS
+    return CELL_WIDTHS
+
+
+@symx("C13-e-codepoint-lookup-order", timeout=900, kind="P",
+      functions=["rich/cells.py:get_character_cell_size", "rich/cells.py:_get_codepoint_cell_size", "rich/cells.py:cell_len"],
+      bounds="for every entry (start, end, width) of the width table (index solver-enumerated) and each of its two edges: the code "
+             "points just outside, on and just inside the edge are looked up one after the other in every order of two and in the "
+             "ascending and descending order of all of them, then the far edge and the neighbouring entries' edges, through "
+             "cell_len and get_character_cell_size with the library's real caches and any module state in place: every answer equals "
+             "the linear scan of the table, whatever was looked up before",
+      outside="orders of more distant code points (single lookups of every code point on a fresh state: C13-a)")
+def c13_lookup_order(e):
+    from vf.common import ref_width_concrete
+    table = _boundary_points()
+    i = int(e.mk("entry", 0, len(table) - 1))
+    start, end, _w = table[i]
+    pts = sorted({p for p in (start - 1, start, start + 1, end - 1, end, end + 1) if 0x20 <= p <= 0x10FFFF
+                  and not 0xD800 <= p <= 0xDFFF})
+    nb = []
+    if i > 0:
+        nb.append(table[i - 1][1])
+    if i + 1 < len(table):
+        nb.append(table[i + 1][0])
+    nb = [p for p in nb if 0x20 <= p and not 0xD800 <= p <= 0xDFFF]
+    orders = [pts, pts[::-1], nb + pts, pts + nb, nb + pts[::-1]]
+    for a in pts:
+        for b in pts:
+            orders.append([a, b, a])
+    which = bool(e.mkbool("via_cell_len"))
+    for order in orders:
+        # each order starts from empty memo tables (best effort: every cache the module exposes), so that an answer cached by an
+        # earlier order cannot mask a wrong one; any other module state is left as the previous lookups made it
+        for f in vars(cells).values():
+            if callable(getattr(f, "cache_clear", None)):
+                f.cache_clear()
+            for d in (getattr(f, "__defaults__", None) or ()):
+                if isinstance(d, dict):
+                    d.clear()
+        for p in order:
+            ch = chr(p)
+            got = cells.cell_len(ch + "a") - 1 if which else cells.get_character_cell_size(ch)
+            if got != ref_width_concrete(ch):
+                return False
+    return True
